@@ -327,9 +327,11 @@ int mod_deregister(m_mod_t **mod, bool from_user) {
             
             /*
              * Destroy context if it is not looping and
-             * it has no more modules in it and is not a persistent ctx
+             * it has no more modules in it and is not a persistent ctx.
+             * Not when module is being replaced by another one with same name,
+             * that is just about to be registered in the same context.
              */
-            if (c->state == M_CTX_IDLE && m_map_len(c->modules) == 0 && !(c->flags & M_CTX_PERSIST)) {
+            if (from_user && c->state == M_CTX_IDLE && m_map_len(c->modules) == 0 && !(c->flags & M_CTX_PERSIST)) {
                 ret = m_ctx_deregister();
             }
         }
